@@ -134,7 +134,17 @@ type Expr struct {
 	RawErr bool
 }
 
-func ENumber(n float64) *Expr                { return &Expr{K: ENum, N: n} }
+func ENumber(n float64) *Expr { return &Expr{K: ENum, N: n} }
+
+// ENumberLit is a non-negative number literal written exactly as text (digits, optionally a point and
+// digits): its value is the decimal meaning of the text.
+func ENumberLit(text string) *Expr {
+	n, err := strconv.ParseFloat(text, 64)
+	if err != nil {
+		panic("ENumberLit: " + text)
+	}
+	return &Expr{K: ENum, N: n, S: text}
+}
 func EBoolean(b bool) *Expr                  { return &Expr{K: EBool, B: b} }
 func EString(s string) *Expr                 { return &Expr{K: EStr, S: s} }
 func EVariable(name string) *Expr            { return &Expr{K: EVar, S: name} }
